@@ -232,7 +232,7 @@ def run(chk, tier):
         xcrate, xg = check_xorshift(chk)
         cnt += 1
         from .c08_loops import check_redraw_loops
-        check_redraw_loops(chk, xcrate, xg)
+        check_redraw_loops(chk, xcrate, xg, "R8")
     except (Anchor, Unsupported, SymbolicLoop) as e:
         chk.ob("R7", "XorShiftRng", False, "not established: %s" % e)
     chk.floor("R0", "seedable linear generator types", cnt, 15)
